@@ -229,6 +229,10 @@ def near_valid(rng):
     return t.encode("latin-1")
 
 
+def rng_pos(k, n):
+    return (k * 7 + 1) % (n + 1)
+
+
 def corpus(ck):
     """fixed regression corpus: (label, [file bytes...], args, stdin bytes|None)"""
     C = []
@@ -315,6 +319,13 @@ def corpus(ck):
     A("equal_length_sequences", [fa([("s%d" % i, "ACGT"[i % 4] + "ACGTACGTAC") for i in range(8)])])
     A("identical_100", [fa([("s%d" % i, "MKVLDEFWHIKLMPQRS") for i in range(100)])])
     A("two_single_residue", [b">a\nA\n>b\nC\n"])
+    # records without residues (they are dropped with a warning) under long names, default verbosity
+    for nl, ne in ((60, 4), (120, 3), (170, 4), (255, 2), (300, 2), (2000, 3)):
+        recs_ = [("k%d" % i, dna[i % 4]) for i in range(3)]
+        for e_ in range(ne):
+            recs_.insert(rng_pos(e_, len(recs_)), ("empty%d_" % e_ + "n" * nl, ""))
+        A("empty_records_names_%d_x%d_verbose" % (nl, ne), [fa(recs_)], ["--kv-verbose"])
+        A("empty_records_names_%d_x%d_quiet" % (nl, ne), [fa(recs_)])
     # record counts around the growth steps of the sequence table (512, 1024), in each input format
     for nrec in (512, 513, 1025):
         fam_ = gen.family(rr, nrec, 14, gen.AA, "random", 0.2, 0.0, 1)
@@ -366,16 +377,21 @@ def run_files(ck, paths, label, blobs, args, sin, cls, idx, known_recs=None, env
     out = os.path.join(d, "out")
     format = "fasta"
     a = list(args)
+    # "--kv-verbose" is a marker of this harness, not a kalign option: run without -q, so that the warning / log paths see the hostile names too
+    quiet = "--kv-verbose" not in a
+    a = [x for x in a if x != "--kv-verbose"]
+    if not quiet:
+        ck.count("runs_with_default_verbosity")
     if "-f" in a:
         format = a[a.index("-f") + 1]
     if "-n" not in a and nthreads is None:
         nthreads = 2
-    res = common.kalign_cli(paths, files, args=a, nthreads=nthreads, out=out, stdin_data=sin, env=env, timeout=300, cpu=120)
+    res = common.kalign_cli(paths, files, args=a, nthreads=nthreads, out=out, stdin_data=sin, env=env, timeout=300, cpu=120, quiet=quiet)
     ctx = {"class": cls, "label": label, "idx": idx, "args": a, "files": [b[:4000] for b in blobs], "stdin": sin[:2000] if sin else None, "variant": paths["variant"]}
     def rerun_fasta():
         a2 = [x for k, x in enumerate(a) if not (x == "-f" or (k > 0 and a[k - 1] == "-f"))]
         out2 = os.path.join(d, "out2")
-        r2 = common.kalign_cli(paths, files, args=a2, nthreads=nthreads, out=out2, stdin_data=sin, env=env, timeout=300, cpu=120)
+        r2 = common.kalign_cli(paths, files, args=a2, nthreads=nthreads, out=out2, stdin_data=sin, env=env, timeout=300, cpu=120, quiet=quiet)
         if r2.rc != 0 or r2.out_bytes is None:
             return None
         return r2.out_bytes
@@ -414,6 +430,8 @@ def w_mutation(ck, paths, n):
             args += ["-f", rng.choice(["msf", "clu", "fasta"])]
         if rng.random() < 0.2:
             args += ["--type", rng.choice(["dna", "protein", "rna", "internal", "divergent"])]
+        if rng.random() < 0.2:
+            args += ["--kv-verbose"]
         run_files(ck, paths, label, blobs, args, None, "mutation", i, nthreads=rng.choice([1, 2, 5]))
         ck.evaluated(("mut", i))
     common.pmap(one, range(n), workers=14)
